@@ -71,6 +71,10 @@ def op(cfg):
             if len(lst) == 0:
                 return "exact absurd hx (by simp)"
             return (f"rcases hx with {pat(len(lst))} <;> subst h <;> simp [*]") if len(lst) > 1 else "subst hx; simp [*]"
+        def blk(lst):
+            if len(lst) == 0:
+                return "  · intro x hx; exact absurd hx (by simp)"
+            return f"  · intro x hx\n    {memT}\n    {memcases(lst)}"
         def fr(lst, nm):
             return f"""  · intro i hi hT
     simp only [List.mem_cons, List.not_mem_nil, or_false, not_or] at hT
@@ -86,18 +90,10 @@ def op(cfg):
   · omega
   · omega
   · omega
-  · intro x hx
-    {memT}
-    {memcases(cfg["TN"])}
-  · intro x hx
-    {memT}
-    {memcases(cfg["TP"])}
-  · intro x hx
-    {memT}
-    {memcases(cfg["TF"])}
-  · intro x hx
-    {memT if O else ""}
-    {memcases(O)}
+{blk(cfg["TN"])}
+{blk(cfg["TP"])}
+{blk(cfg["TF"])}
+{blk(O)}
 {fr(cfg["TN"], "n")}
 {fr(cfg["TP"], "p")}
 {fr(cfg["TF"], "f")}"""
@@ -179,7 +175,12 @@ def op(cfg):
     have hf0 : f ≠ s.nF := by omega
     have hfz : f ≠ 0 := by omega
     unfold St.{core}; evw [{F}, hfn, hf0, hfz, hF] <;> grind
-  · intro f h0 hf' hF
+""" + ("""  · intro f h0 hf' hF
+    exfalso
+    rcases hF with h | h
+    · simp at h
+    · omega
+""" if not allF else f"""  · intro f h0 hf' hF
     have hx' : {ors(allF, "f")} := by
       rcases hF with h | h
       · simp only [List.mem_cons, List.not_mem_nil, or_false] at h <;> omega
@@ -187,7 +188,7 @@ def op(cfg):
     unfold St.{core}
 {cfg.get("acheck_pre", "")}    {("rcases hx' with " + pat(len(allF)) + " <;> subst h") if len(allF) > 1 else "subst hx'"}
     all_goals (refine ⟨?_, ?_⟩ <;> evw [{F}{cfg.get("acheck_facts", "")}] <;> grind)
-""")
+"""))
     s.append("end St\nend Spade\n")
     open(os.path.join(OUT, cfg["file"] + ".lean"), "w").write(HEADER + "\n".join(s))
 
@@ -466,6 +467,128 @@ theorem LInv.csCore {s : St} (hs : LInv s) (e0 : Nat) (p0 : Unit) (b_0 : e0 < s.
     check_facts=", hq', hq",
 )
 
+EXTEND_LINE = dict(
+    file="ExtendLine", core="elCore",
+    old=["oe", "ie"], TN=["ie"], TP=["oe"], TF=[], O=[],
+    FT=[], newE=2, newF=0, grows=(1, 2, 0),
+    call="s.elCore oe ie ev (s.fc oe) p d",
+    defs="""/-! ### extend_line (a new vertex beyond the end of a degenerate chain) -/
+
+def elCore (s : St) (oe ie ev f : Nat) (p : Pt) (d : Nat) : St :=
+  s.run [.prev oe s.nE, .next ie (s.nE + 1),
+          .pushEdge (mkHE s.nV oe (s.nE + 1) f) (mkHE ev s.nE ie f),
+          .pushVertex p d (some s.nE)]
+
+theorem extendLine_eq (s : St) (v : Nat) (p : Pt) (d : Nat) :
+    (s.extendLine v p d).1 = elCore s ((s.vOut.getD v none).getD 0) (s.rv ((s.vOut.getD v none).getD 0)) v
+      (s.fc ((s.vOut.getD v none).getD 0)) p d := rfl
+""",
+    sig="""/-- extending the chain at an end vertex keeps the link invariant: `oe` is the only out-edge of
+the end vertex `ev` (its predecessor is its own twin) and lies in the outer face -/
+theorem LInv.elCore {s : St} (hs : LInv s) (oe ev : Nat) (p : Pt) (d : Nat) (b_0 : oe < s.nE)
+    (hnF : s.nF = 1) (hend : s.prv oe = s.rv oe) (horg : s.org oe = ev) :
+    LInv (elCore s oe (s.rv oe) ev (s.fc oe) p d)""",
+    setup="""  have E0 := hs.edge oe b_0
+  have hfc : s.fc oe = 0 := by have := E0.2.2.2.1; omega
+  have b_1 := hs.rv_lt b_0
+  have E1 := hs.edge _ b_1
+  have r0 := hs.rv_rv b_0
+  have rne := hs.rv_ne b_0
+  have a4 : s.nxt (s.rv oe) = oe := by have := E0.2.2.2.2.2.2.1; rw [hend] at this; exact this
+  have f1 : s.fc (s.rv oe) = 0 := by
+    have := E1.2.2.2.2.2.2.2.1; rw [a4, hfc] at this; exact this.symm
+  have hv : ev < s.nV := by rw [← horg]; exact E0.1
+  generalize hie : s.rv oe = ie at *
+  have d_0_1 : oe ≠ ie := Ne.symm rne""",
+    sem=", hend, a4, r0",
+)
+
+SPLIT_LINE_A = dict(
+    file="SplitLineA", core="slaCore",
+    old=["e0", "rv0"], TN=["e0"], TP=["rv0"], TF=[], O=["rv0"],
+    FT=[], newE=2, newF=0, grows=(1, 2, 0),
+    call="s.slaCore e0 rv0 (s.org rv0) (s.fc e0) p d",
+    defs="""/-! ### split_edge_when_all_vertices_on_line, the edge at the end of the chain -/
+
+def slaCore (s : St) (e0 rv0 dt f : Nat) (p : Pt) (d : Nat) : St :=
+  s.run [.next e0 s.nE, .prev rv0 (s.nE + 1), .origin rv0 s.nV, .vout dt (some (s.nE + 1)),
+          .pushEdge (mkHE s.nV (s.nE + 1) e0 f) (mkHE dt rv0 s.nE f),
+          .pushVertex p d (some s.nE)]
+
+theorem splitEdgeOnLineA_eq (s : St) (e0 : Nat) (p : Pt) (d : Nat) (h : (s.nxt e0 == s.rv e0) = true) :
+    (s.splitEdgeOnLine e0 p d).1 = slaCore s e0 (s.rv e0) (s.org (s.rv e0)) (s.fc e0) p d := by
+  unfold St.splitEdgeOnLine; simp only [h, if_true]; rfl
+""",
+    sig="""/-- splitting the last edge of a chain keeps the link invariant -/
+theorem LInv.slaCore {s : St} (hs : LInv s) (e0 : Nat) (p : Pt) (d : Nat) (b_0 : e0 < s.nE)
+    (hnF : s.nF = 1) (hend : s.nxt e0 = s.rv e0) :
+    LInv (slaCore s e0 (s.rv e0) (s.org (s.rv e0)) (s.fc e0) p d)""",
+    setup="""  have E0 := hs.edge e0 b_0
+  have hfc : s.fc e0 = 0 := by have := E0.2.2.2.1; omega
+  have b_1 := hs.rv_lt b_0
+  have E1 := hs.edge _ b_1
+  have r0 := hs.rv_rv b_0
+  have rne := hs.rv_ne b_0
+  have a5 : s.prv (s.rv e0) = e0 := by have := E0.2.2.2.2.2.1; rw [hend] at this; exact this
+  have f1 : s.fc (s.rv e0) = 0 := by
+    have := E0.2.2.2.2.2.2.2.1; rw [hend, hfc] at this; exact this
+  generalize hrv : s.rv e0 = rv0 at *
+  have d_0_1 : e0 ≠ rv0 := Ne.symm rne""",
+    sem=", hend, a5, r0",
+)
+
+SPLIT_LINE_B = dict(
+    file="SplitLineB", core="slbCore",
+    old=["e0", "rv0", "en", "rp"], TN=["e0", "rp"], TP=["rv0", "en"], TF=[], O=["rv0"],
+    FT=[], newE=2, newF=0, grows=(1, 2, 0),
+    call="s.slbCore e0 rv0 en rp (s.org rv0) (s.fc e0) p d",
+    defs="""/-! ### split_edge_when_all_vertices_on_line, an edge inside the chain -/
+
+def slbCore (s : St) (e0 rv0 en rp dt f : Nat) (p : Pt) (d : Nat) : St :=
+  s.run [.next e0 s.nE, .prev rv0 (s.nE + 1), .origin rv0 s.nV, .vout dt (some (s.nE + 1)),
+          .prev en s.nE, .next rp (s.nE + 1),
+          .pushEdge (mkHE s.nV en e0 f) (mkHE dt rv0 rp f),
+          .pushVertex p d (some s.nE)]
+
+theorem splitEdgeOnLineB_eq (s : St) (e0 : Nat) (p : Pt) (d : Nat) (h : (s.nxt e0 == s.rv e0) = false) :
+    (s.splitEdgeOnLine e0 p d).1 = slbCore s e0 (s.rv e0) (s.nxt e0) (s.prv (s.rv e0)) (s.org (s.rv e0))
+      (s.fc e0) p d := by
+  unfold St.splitEdgeOnLine; simp only [h]; rfl
+""",
+    sig="""/-- splitting an inner edge of a chain keeps the link invariant -/
+theorem LInv.slbCore {s : St} (hs : LInv s) (e0 : Nat) (p : Pt) (d : Nat) (b_0 : e0 < s.nE)
+    (hnF : s.nF = 1) (hend : s.nxt e0 ≠ s.rv e0) :
+    LInv (slbCore s e0 (s.rv e0) (s.nxt e0) (s.prv (s.rv e0)) (s.org (s.rv e0)) (s.fc e0) p d)""",
+    setup="""  have E0 := hs.edge e0 b_0
+  have b_1 := hs.rv_lt b_0
+  have E1 := hs.edge _ b_1
+  have b_2 : s.nxt e0 < s.nE := E0.2.1
+  have b_3 : s.prv (s.rv e0) < s.nE := E1.2.2.1
+  have E2 := hs.edge _ b_2
+  have E3 := hs.edge _ b_3
+  have hfc : s.fc e0 = 0 := by have := E0.2.2.2.1; omega
+  have f0 : s.fc (s.rv e0) = 0 := by have := E1.2.2.2.1; omega
+  have f3 : s.fc (s.prv (s.rv e0)) = 0 := by have := E3.2.2.2.1; omega
+  have r0 := hs.rv_rv b_0
+  have rne := hs.rv_ne b_0
+  have a5 : s.prv (s.nxt e0) = e0 := E0.2.2.2.2.2.1
+  have a4 : s.nxt (s.prv (s.rv e0)) = s.rv e0 := E1.2.2.2.2.2.2.1
+  have f1 : s.fc (s.nxt e0) = 0 := by rw [E0.2.2.2.2.2.2.2.1]; exact hfc
+  have l2 := hs.rv_lt b_2
+  have l3 := hs.rv_lt b_3
+  have r2 := hs.rv_rv b_2
+  have r3 := hs.rv_rv b_3
+  generalize hrv : s.rv e0 = rv0 at *
+  generalize hen : s.nxt e0 = en at *
+  generalize hrp : s.prv rv0 = rp at *
+  have dd : e0 ≠ rv0 ∧ e0 ≠ en ∧ e0 ≠ rp ∧ rv0 ≠ en ∧ rv0 ≠ rp ∧ en ≠ rp := by
+    unfold EdgeOK dst at *
+    refine ⟨Ne.symm rne, ?_, ?_, Ne.symm hend, ?_, ?_⟩
+    all_goals grind
+  """ + dpairs(["e0", "rv0", "en", "rp"]),
+    sem=", a4, a5, r0",
+)
+
 if __name__ == "__main__":
-    for c in [SPLIT_EDGE, TRIANGLE, SPLIT_HALF, CREATE_FACE, SINGLE_FACE]:
+    for c in [SPLIT_EDGE, TRIANGLE, SPLIT_HALF, CREATE_FACE, SINGLE_FACE, EXTEND_LINE, SPLIT_LINE_A, SPLIT_LINE_B]:
         op(c)
